@@ -491,24 +491,18 @@ def canon(msg, ctx=None):
 
 def _experimental_function_value_names(m) -> set:
     """Below the IR version that has FunctionProto.value_info, a main-graph value_info entry named
-    "{domain}::{function}/{value}" describes a value (input or node output) of the model-local function
-    (domain, function, overload "") — it is referenced, hence part of what must round-trip."""
+    "{domain}::{function}/{value}" describes a value (input or node output) of a model-local function: the name is
+    matched against the qualified-name prefix of every existing function (348a4f1), the rest is the value name —
+    such an entry is referenced, hence part of what must round-trip."""
     if m.ir_version >= 10 or not len(m.functions):
         return set()
-    vals = {}
-    for f in m.functions:
-        if not f.overload:
-            vals[(f.domain, f.name)] = set(f.input) | {o for n in f.node for o in n.output}
     out = set()
-    for vi in m.graph.value_info:
-        parts = vi.name.split("/")
-        if len(parts) != 2:
-            continue
-        fparts = parts[0].split("::")
-        if len(fparts) != 2:
-            continue
-        if parts[1] in vals.get((fparts[0], fparts[1]), ()):
-            out.add(vi.name)
+    for f in m.functions:
+        prefix = f"{f.domain}::{f.name}/"
+        vals = set(f.input) | {o for n in f.node for o in n.output}
+        for vi in m.graph.value_info:
+            if vi.name.startswith(prefix) and vi.name[len(prefix):] in vals:
+                out.add(vi.name)
     return out
 
 
@@ -1105,8 +1099,8 @@ def model_experimental_ir9(g: "Gen"):
         g.function(m.functions.add(), m.ir_version, 0, None)
     taken = {v.name for v in m.graph.value_info} | {o for n in m.graph.node for o in n.output}
     for i, f in enumerate(m.functions):
-        f.domain = ["", "", AI_ONNX, "pkg"][(i + g.r.randrange(4)) % 4]
-        f.name = f"Block{i}"
+        f.domain = ["", "", AI_ONNX, "pkg", "a::b"][(i + g.r.randrange(5)) % 5]
+        f.name = g.r.choice([f"Block{i}", f"mod/Block{i}", f"ns::Block{i}"])   # separators inside the names (348a4f1)
         vals = list(f.input) + [o for n in f.node for o in n.output if o]
         g.r.shuffle(vals)
         for v in vals[: g.r.randrange(1, 4)]:
